@@ -3,16 +3,38 @@ import json
 from common import Check, run_tlc, sharded_events
 
 
+def _exceeds(ev, c):
+  """harness-side re-derivation (diagnosis only; the verdict is TLC's): offered value above the documented limit."""
+  if not c["given"]:
+    return False
+  d = [{"t": "n", "n": v, "l": []} for v in ev["default"]]
+  g = list(c["given"])
+  if c["registered"]:
+    if c["seq"]:
+      g = g + d[len(g):] if len(g) < 4 else g
+    elif len(g) < 3:
+      g = g + d[len(g):2] + d[-1:]
+  role = c["role"]
+  idx = 0 if role in ("kernel", "pointwise_kernel") else 1 if role == "bias" else (2 if c["seq"] else 0) if role == "recurrent_kernel" else len(g) - 1
+  field = "kernel" if role in ("kernel", "pointwise_kernel", "recurrent_kernel") else role
+  tab = dict(map(tuple, ev["table"].get(field, [])))
+  e = g[idx]
+  ok = set(e["l"]) & set(tab) if e["t"] == "l" else {k for k, v in tab.items() if v <= e["n"]}
+  return not set(c["values"]) <= ok
+
+
 def run(pid, tier, seed):
   chk = Check(pid, tier, seed)
   chk.rule = ("trials: case = (assignment of every tuner choice, layer_indexes) on the reference model of AutoQ.tla (class "
               "keys, a regex pattern group, softmax / linear layers); all 324 assignments x 4 index sets in the thorough "
-              "tier, a seeded sample of 420 in quick; bonus: case = (delta_p, delta_n, rate, reference, trial size); size: "
+              "tier, a seeded sample of 280 in quick; generic instances (mixed conv/separable/LSTM model with short limit lists, default completion, explicit quantizer lists, names containing 'kernel'/'bias'; Conv1D/SimpleRNN/GRU model with a regex group): seeded random tuner answers; bonus: case = (delta_p, delta_n, rate, reference, trial size); size: "
               "case = trial model; distinct = the tuple")
   chk.assumptions = ["the keras-tuner search loop cannot run in this environment; the tuner is a stub that records and "
                      "answers every Choice/Fixed call", "filter tuning (tune_filters) is not exercised"]
   mc = run_tlc("MC_AutoQ", "MC_AutoQ", coverage=True)
   chk.add_mc("MC_AutoQ", mc, "all assignments: within limits, group sharing, unselected untouched, softmax kept")
+  mcg = run_tlc("MC_AutoQG", "MC_AutoQG", coverage=True)
+  chk.add_mc("MC_AutoQG", mcg, "limit completion from 'default' and role indexing: code rule = documented format on all short lists")
   rejects, errors, events = sharded_events(chk, "drive_autoq.py", "-", "Trace_AutoQ", tier, seed, "autoq")
   for e in errors:
     chk.violation({"clause": "raises"}, e)
@@ -21,6 +43,24 @@ def run(pid, tier, seed):
       chk.violation({"clause": cl, "kind": ev["kind"]}, {k: v for k, v in ev.items() if len(json.dumps(v)) < 1500})
   for ev in events:
     chk.key(json.dumps([ev["kind"], ev["idx"], [c["chosen"] for c in ev["calls"]], ev["ref"], ev["trial"], ev["series"], ev["elems"]]))
+  # generic instances: mixed conv / separable / recurrent models, short limit lists + default, explicit quantizer lists
+  rejg, errg, evg = sharded_events(chk, "drive_autoqg.py", "-", "Trace_AutoQG", tier, seed, "autoqg")
+  for e in errg:
+    chk.violation({"clause": "raises", "instance": e.get("inst", "")}, e)
+  for ev, clauses in rejg:
+    for cl in clauses:
+      if cl.startswith("DEV_"):
+        chk.deviation(cl)
+        continue
+      ident = {"clause": cl, "kind": "gtrial"}
+      if cl == "offered_quantizer_exceeds_limit_or_is_not_in_the_role_table":
+        # which (role, layer kind) pairs were offered something outside the documented limit
+        bad = sorted({c["role"] + ("@seq" if c["seq"] else "") for c in ev["calls"] if _exceeds(ev, c)})
+        ident["roles"] = ",".join(bad)
+      chk.violation(ident, {k: v for k, v in ev.items() if k != "table"})
+  for ev in evg:
+    chk.key(json.dumps([ev["inst"], [l["selected"] for l in ev["layers"]], [c["chosen"] for c in ev["calls"]]]))
+  chk.cov["generic_trials"] = len(evg)
   tr = next(e for e in events if e["kind"] == "trial")
   chk.sample({"idx": tr["idx"], "calls": tr["calls"][:4], "res": tr["res"][:2]})
   chk.cov["trials"] = sum(1 for e in events if e["kind"] == "trial")
